@@ -43,7 +43,9 @@ RULE = ("order of the streams: corpus of 6 fixed regression inputs; exhaustive: 
         "d<=3, with ref=3^d (boundary points) and ref=4^d (quick: the 3-point multisets in d=3 are a seeded 1/12 sample; "
         "thorough: all of them, plus every 4-point multiset for d<=2 and a seeded sample of 150000 4-point multisets in d=3); "
         "wrappers: populations of 2..8 individuals with 1..5 objectives (mostly 2..4), every min/max mixture and dyadic "
-        "weights, wide-range 'tiny contributor' fronts, given and default reference, each wrapper with both backends; calling "
+        "weights, with the fitness class varied (base.Fitness, base.ConstrainedFitness feasible / violating, a class whose "
+        "comparison operators, dominates and __hash__ raise, an epsilon-dominance subclass: only wvalues may matter), "
+        "wide-range 'tiny contributor' fronts, given and default reference, each wrapper with both backends; calling "
         "conventions: pyhv, the extension and both wrappers called with plain lists / tuples, integer arrays (int8/16/32/64), float "
         "arrays, NON-CONTIGUOUS float arrays (transposed, row-strided, column-sliced, Fortran order; built on the callee's side of "
         "the worker pipe), mixed sequence/array arguments, reference all zero or not, always TWICE on the same objects (value exact both times, "
@@ -475,10 +477,40 @@ def pyhv_observe(pts, ref):
 _classes = {}
 
 
-def fit_class(weights):
-    key = tuple(weights)
+FIT_KINDS = ["plain", "plain", "constrained", "constrained-violating", "wvalues-only", "eps-dominance"]
+
+
+def _forbidden(name):
+    def method(self, *args, **kwargs):
+        raise AssertionError("the hypervolume of a population is defined on its weighted objectives alone, but "
+                             "Fitness.%s was used" % name)
+    return method
+
+
+def fit_class(weights, kind="plain"):
+    """The fitness class of the population.  The statement speaks about the weighted objectives only, so every class
+    with the same `wvalues` must give the same answer:
+      plain                 base.Fitness
+      constrained           base.ConstrainedFitness, feasible (constraint_violation None / all False)
+      constrained-violating base.ConstrainedFitness with violated constraints on some individuals
+      wvalues-only          a Fitness whose comparison operators, `dominates` and `__hash__` raise
+      eps-dominance         a user subclass with a coarser `dominates` (epsilon-dominance)"""
+    key = (tuple(weights), kind)
     if key not in _classes:
-        _classes[key] = type("Fit", (base.Fitness,), {"weights": tuple(float(w) for w in weights)})
+        ws = {"weights": tuple(float(w) for w in weights)}
+        if kind.startswith("constrained"):
+            _classes[key] = type("CFit", (base.ConstrainedFitness,), ws)
+        elif kind == "wvalues-only":
+            body = dict(ws)
+            for nm in ("dominates", "__lt__", "__le__", "__gt__", "__ge__", "__eq__", "__ne__", "__hash__"):
+                body[nm] = _forbidden(nm)
+            _classes[key] = type("WFit", (base.Fitness,), body)
+        elif kind == "eps-dominance":
+            def dominates(self, other, obj=slice(None)):
+                return all(a >= b - 0.5 for a, b in zip(self.wvalues[obj], other.wvalues[obj])) and self.wvalues != other.wvalues
+            _classes[key] = type("EFit", (base.Fitness,), dict(ws, dominates=dominates))
+        else:
+            _classes[key] = type("Fit", (base.Fitness,), ws)
     return _classes[key]
 
 
@@ -487,9 +519,17 @@ class Ind(object):
         self.fitness = fitness
 
 
-def population(w, vals):
-    F = fit_class(w)
-    return [Ind(F(tuple(float(x) for x in v))) for v in vals]
+def population(w, vals, kind="plain"):
+    F = fit_class(w, kind)
+    out = []
+    for i, v in enumerate(vals):
+        f = F(tuple(float(x) for x in v))
+        if kind == "constrained":
+            f.constraint_violation = None if i % 2 else (False, False)
+        elif kind == "constrained-violating":
+            f.constraint_violation = (True,) if i % 3 == 0 else (False,)
+        out.append(Ind(f))
+    return out
 
 
 class use_backend(object):
@@ -607,7 +647,7 @@ def eval_pop(d):
     r = ref if ref is not None else [max(p[j] for p in pts) + 1 for j in range(len(w))]
     if not exactness_ok(pts, r) or any(x > y for p in pts for x, y in zip(p, r)):
         raise BadCase("outside the exact regime / domain")
-    pop = population(w, vals)
+    pop = population(w, vals, d.get("fit", "plain"))
     with use_backend(btools, name):
         if ref is None:
             got = btools.hypervolume(pop)
@@ -626,7 +666,7 @@ def eval_pop(d):
     if not (name == "py" and orc is not None):
         lines = ["C15 pop %s %s %s" % (slist(w), spts(vals), "none" if ref is None else slist(ref))]
         expect = ["%s %s" % ("non-finite" if got is None else sfr(got), slist(r))]
-    tag = "pop/%s/m=%d/%s" % (name, len(w), "defref" if ref is None else "ref")
+    tag = "pop/%s/m=%d/%s/%s" % (name, len(w), "defref" if ref is None else "ref", d.get("fit", "plain"))
     return Case(d, lines, expect, orc, tag=tag, nontrivial=(len(vals) >= 2 and want > 0))
 
 
@@ -640,7 +680,7 @@ def eval_ind(d):
     r = ref if ref is not None else [max(p[j] for p in pts) + 1 for j in range(len(w))]
     if n < 2 or not exactness_ok(pts, r) or any(x > y for p in pts for x, y in zip(p, r)):
         raise BadCase("outside the exact regime / domain")
-    pop = population(w, vals)
+    pop = population(w, vals, d.get("fit", "plain"))
     with use_backend(indicator, name):
         if ref is None:
             got = indicator.hypervolume(pop)
@@ -672,7 +712,8 @@ def eval_ind(d):
         lines = ["C15 ind %s %s %s" % (slist(w), spts(vals), "none" if ref is None else slist(ref))]
         expect = ["%d %s" % (idx, ",".join("non-finite" if x is None else sfr(x) for x in b_loo))]
     ties = len(set(loo)) < n
-    tag = "ind/%s/m=%d/%s%s" % (name, len(w), "defref" if ref is None else "ref", "/tied-contrib" if ties else "")
+    tag = "ind/%s/m=%d/%s%s/%s" % (name, len(w), "defref" if ref is None else "ref", "/tied-contrib" if ties else "",
+                                    d.get("fit", "plain"))
     return Case(d, lines, expect, orc, tag=tag, nontrivial=(total > 0))
 
 
@@ -1112,9 +1153,10 @@ def generate(tier, rng, mult):
     npop = (6000 if thorough else 700) * mult
     for _ in range(npop):
         w, vals, ref = random_population(rng)
+        fit = rng.choice(FIT_KINDS)
         for kind in ("pop", "ind"):
             for impl in ("c", "py"):
-                dd = {"k": kind, "impl": impl, "w": w, "vals": vals, "ref": ref}
+                dd = {"k": kind, "impl": impl, "w": w, "vals": vals, "ref": ref, "fit": fit}
                 if kind == "pop" and ref is not None and rng.random() < 0.5:
                     dd["reflist"] = True
                 yield dd
